@@ -41,6 +41,9 @@ type vMonC07 struct {
 	digests  *vC07Digests
 	failed   bool
 	prevTx   []byte
+	// parameter changes applied on the primary since the last tx (same block
+	// as that tx: random histories apply them with gap 0)
+	govs [][3]string
 }
 
 type vC07Digests struct {
@@ -61,6 +64,11 @@ func vDetBytes(r abci.ResponseDeliverTx) []byte {
 	return bz
 }
 
+// OnGov: a parameter change decided by the network reaches every node.
+func (m *vMonC07) OnGov(h *vHist, subspace, key, value string) {
+	m.govs = append(m.govs, [3]string{subspace, key, value})
+}
+
 func (m *vMonC07) AfterTx(h *vHist, o *vTxObs) {
 	if m.replicas == nil {
 		for i := 0; i < 2; i++ {
@@ -76,6 +84,16 @@ func (m *vMonC07) AfterTx(h *vHist, o *vTxObs) {
 		}
 	}
 	kind := vKindOf(o)
+	// parameter changes the primary saw since the previous tx (in that tx's block)
+	for _, gv := range m.govs {
+		for _, c := range m.replicas {
+			if err := c.gov(gv[0], gv[1], gv[2]); err != nil {
+				m.res.Count("parameter_change_refused_on_a_replica", 1)
+			}
+		}
+		m.res.Count("parameter_changes_replicated", 1)
+	}
+	m.govs = nil
 	if o.TxBytes == nil {
 		return
 	}
@@ -212,6 +230,23 @@ func vResString(r abci.ResponseDeliverTx) string {
 }
 
 func (m *vMonC07) End(h *vHist) {
+	// parameter changes and blocks (node restarts) after the last tx
+	for _, gv := range m.govs {
+		for _, c := range m.replicas {
+			_ = c.gov(gv[0], gv[1], gv[2])
+		}
+	}
+	m.govs = nil
+	for _, ph := range h.pendingHashes {
+		for ri, c := range m.replicas {
+			got := c.endBlock()
+			c.beginBlock()
+			if !bytes.Equal(got, ph) && !m.failed {
+				h.Violation("app-hash-identical", "final", fmt.Sprintf("app hash of a block after the last tx differs on replica %d: %x vs %x", ri+1, ph, got))
+				m.failed = true
+			}
+		}
+	}
 	// final block: commit everywhere and compare the last hash
 	final := h.c.endBlock()
 	for ri, c := range m.replicas {
